@@ -100,6 +100,26 @@ pub type Inferred = _;
     ("unknown_typeshare_keys", r#"#[typeshare(unknown_key = "x", another)]
 pub struct UnknownKeys { #[typeshare(nothing)] pub v: u32 }
 "#),
+    ("generic_self_reference_twice", r#"#[typeshare]
+pub struct BinTree<T> { pub value: T, pub left: Option<Box<BinTree<T>>>, pub right: Option<Box<BinTree<T>>> }
+#[typeshare]
+pub struct Rose<T> { pub value: T, pub kids: Vec<Rose<T>>, pub more: Vec<Rose<T>> }
+#[typeshare]
+pub struct UsesTrees { pub a: BinTree<u32>, pub b: Rose<String> }
+"#),
+    ("use_cycle_of_modules", r#"use first_mod::second_mod;
+use second_mod::first_mod;
+use third as fourth;
+use fourth as third;
+#[typeshare]
+pub struct AfterUseCycle { pub v: second_mod::Thing, pub w: third::Other }
+pub fn unrelated() { let _x = first_mod::value(); }
+"#),
+    ("mutually_recursive_generics", r#"#[typeshare]
+pub struct Ping<T> { pub pong: Option<Box<Pong<T>>>, pub also: Vec<Pong<T>> }
+#[typeshare]
+pub struct Pong<T> { pub ping: Option<Box<Ping<T>>>, pub also: Vec<Ping<T>> }
+"#),
     ("self_reference", r#"#[typeshare]
 pub struct Tree { pub kids: Vec<Tree>, pub parent: Option<Box<Tree>> }
 "#),
